@@ -68,12 +68,31 @@ structure Helper where
 
 namespace Helper
 def new (secret : Bytes) : Helper := ⟨secret, List.replicate 32 0⟩
-def newNonce (h : Helper) (n : Bytes) : Helper := { h with lastNonce := n }
+/-- `new_nonce(entropy_source)`: the entropy source's next output `e` becomes the stored nonce and is
+    the nonce handed out for the request — whatever the helper's previous state was -/
+def newNonce (h : Helper) (e : Bytes) : Helper := { h with lastNonce := e }
+/-- the nonce `new_nonce` returns to the caller -/
+def issued (h : Helper) : Bytes := h.lastNonce
 def clientHmac (mac : Mac) (h : Helper) (rs : List KVRec) : Bytes := sharedTag mac h.secret clientNonce rs
 def serverHmac (mac : Mac) (h : Helper) (rs : List KVRec) : Bytes := sharedTag mac h.secret serverNonce rs
 def checkHmac (mac : Mac) (h : Helper) (rs : List KVRec) (received : Bytes) : Bool :=
   accept received (sharedTag mac h.secret h.lastNonce rs)
 end Helper
+
+/-- requests to one long-lived `ExternalPersistHelper` (state = the last nonce): a read draws a new nonce
+    from the entropy source, a reply is checked against the **current** nonce -/
+inductive HOp
+  | newNonce (e : Bytes)
+  | check (rs : List KVRec) (received : Bytes)
+
+inductive HOut
+  | nonce (n : Bytes)
+  | verdict (ok : Bool)
+  deriving DecidableEq, Repr
+
+def Helper.step (mac : Mac) (h : Helper) : HOp → Helper × HOut
+  | .newNonce e => (h.newNonce e, .nonce (h.newNonce e).issued)
+  | .check rs received => (h, .verdict (h.checkHmac mac rs received))
 
 /-- `append_hmac_to_value` -/
 def prepareValue (mac : Mac) (secret key : Bytes) (ver : Nat) (val : Bytes) : Bytes :=
